@@ -7,7 +7,12 @@
 
 import pyscsi.pyscsi.scsi_enum_modesense as modesense_enums
 from pyscsi.pyscsi.scsi_command import SCSICommand
-from pyscsi.utils.converter import decode_bits, encode_dict, scsi_int_to_ba
+from pyscsi.utils.converter import (
+    decode_bits,
+    encode_dict,
+    scsi_ba_to_int,
+    scsi_int_to_ba,
+)
 
 #
 # SCSI ModeSense6 command and definitions
@@ -75,28 +80,33 @@ class ModeSense6(SCSICommand):
         _bdl = data[3]
         block_descriptor = data[4:_bdl]  # no one really use this variable in here ?
 
-        data = data[4 + _bdl :]
+        # every mode page that starts inside the mode data length
+        _end = min(data[0] + 1, len(data))
+        _pos = 4 + _bdl
+        while _pos < _end:
+            _page = data[_pos:]
+            _r = {}
+            if not _page[0] & 0x40:
+                decode_bits(_page, cls.MODESENSE6.page_zero_bits, _r)
+                _pos += _page[1] + 2
+                _page = _page[2:]
+            else:
+                decode_bits(_page, cls.MODESENSE6.sub_page_bits, _r)
+                _pos += scsi_ba_to_int(_page[2:4]) + 4
+                _page = _page[4:]
 
-        _r = {}
-        if not data[0] & 0x40:
-            decode_bits(data, cls.MODESENSE6.page_zero_bits, _r)
-            data = data[2:]
-        else:
-            decode_bits(data, cls.MODESENSE6.sub_page_bits, _r)
-            data = data[4:]
+            if _r["page_code"] == cls.PAGE_CODE.ELEMENT_ADDRESS_ASSIGNMENT:
+                decode_bits(_page, cls.MODESENSE6.element_address_bits, _r)
+            if _r["page_code"] == cls.PAGE_CODE.CONTROL:
+                if "sub_page_code" not in _r:
+                    decode_bits(_page, cls.MODESENSE6.control_bits, _r)
+                elif _r["sub_page_code"] == 1:
+                    decode_bits(_page, cls.MODESENSE6.control_extension_1_bits, _r)
+            if _r["page_code"] == cls.PAGE_CODE.DISCONNECT_RECONNECT:
+                if "sub_page_code" not in _r:
+                    decode_bits(_page, cls.MODESENSE6.disconnect_reconnect_bits, _r)
 
-        if _r["page_code"] == cls.PAGE_CODE.ELEMENT_ADDRESS_ASSIGNMENT:
-            decode_bits(data, cls.MODESENSE6.element_address_bits, _r)
-        if _r["page_code"] == cls.PAGE_CODE.CONTROL:
-            if "sub_page_code" not in _r:
-                decode_bits(data, cls.MODESENSE6.control_bits, _r)
-            elif _r["sub_page_code"] == 1:
-                decode_bits(data, cls.MODESENSE6.control_extension_1_bits, _r)
-        if _r["page_code"] == cls.PAGE_CODE.DISCONNECT_RECONNECT:
-            if "sub_page_code" not in _r:
-                decode_bits(data, cls.MODESENSE6.disconnect_reconnect_bits, _r)
-
-        _mps.append(_r)
+            _mps.append(_r)
 
         result.update({"mode_pages": _mps})
         return result
